@@ -102,6 +102,8 @@ Apply(g, e) ==
     [] e.op = "add"           -> AddRows(g, e.news)
     \* RevComp / Reverse of ONE row through the row view (alignment.Row, QRow; a Multi's row is its own
     \* sequence): that row's letters are mirrored in place, its offset and the other rows are untouched
+    \* a clone was taken, then one cell appended to the original (c) and another to the clone (c2)
+    [] e.op = "cloneappend"   -> [g EXCEPT !.rows[1].cells = Append(@, IF HasQ(g.kind) THEN e.c ELSE <<e.c[1], 0>>)]
     [] e.op = "rowrevcomp"    -> [g EXCEPT !.rows[e.i].cells = RevCompCells(g.alpha, @)]
     [] e.op = "rowreverse"    -> [g EXCEPT !.rows[e.i].cells = Rev(@)]
     [] OTHER                  -> g          \* probes: the container must not change
